@@ -51,6 +51,23 @@ BaseDocs(d) ==
       rs \in { <<Rec(c, s, c, s, st)>> : c \in {1, 3}, s \in {10, 4096}, st \in {<<16>>, <<17, 32>>} }
              \cup { <<Rec(0, 0, 2, 64, <<16, 32>>)>>, <<Rec(1, 16, 3, 48, <<32>>)>>, <<Rec(2, 100, 2, 100, <<16>>), Rec(7, 7000, 7, 7000, <<4096, 17>>)>> } }
   \cup
+  \* growth and fragmentation profiles: the heap grammar with period 1, no unsampling, in-use pair only
+  { [fmt |-> "heap", variant |-> v, recs |-> rs, rate |-> 0, period |-> 0, hz |-> 0] :
+      v \in {"growthz", "growth", "fragmentationz"},
+      rs \in { <<Rec(c, s, c2, s2, st)>> : c \in {1, 3}, s \in {10, 4096}, c2 \in {0, 5}, s2 \in {0, 50}, st \in {<<16>>, <<17, 32>>} } }
+  \cup
+  \* Java heapz / contentionz / CPU: addresses are identifiers resolved by a trailing location section, never adjusted
+  { [fmt |-> "javaheap", variant |-> "heapz", recs |-> rs, rate |-> 524288, period |-> 0, hz |-> 0] :
+      rs \in { <<Rec(c, s, 0, 0, st)>> : c \in {1, 3}, s \in {10, 4096, 1048576}, st \in StacksOf } \cup { <<Rec(2, 100, 0, 0, <<16, 32>>), Rec(7, 7000, 0, 0, <<32, 16>>), Rec(1, 8, 0, 0, <<16, 32>>)>> } }
+  \cup
+  { [fmt |-> "javacontention", variant |-> "contentionz", recs |-> rs, rate |-> 0, period |-> p, hz |-> 0] :
+      p \in {0, 1, 100}, rs \in { <<Rec(c, cy, 0, 0, st)>> : c \in {1, 3}, cy \in {0, 2000}, st \in {<<16>>, <<17, 32>>, <<32, 32, 16>>} } \cup { <<Rec(1, 10, 0, 0, <<16, 17>>), Rec(2, 30, 0, 0, <<32>>)>> } }
+  \cup
+  { [fmt |-> "javacpu", variant |-> v, recs |-> rs, rate |-> 0, period |-> p, hz |-> 0] :
+      v \in {"64le", "64be", "32le", "32be"}, p \in {1, 10000},
+      rs \in { <<Rec(c, 0, 0, 0, st)>> : c \in {1, 4}, st \in {<<16>>, <<17, 16>>, <<16, 4096, 32>>, <<17, 17, 32>>} }
+             \cup { <<Rec(1, 0, 0, 0, <<16, 4096, 32>>), Rec(2, 0, 0, 0, <<17, 4096, 32>>)>> } }    \* nothing is stripped from Java stacks
+  \cup
   \* contention / mutex (hz in MHz: TLC integers are 32 bit)
   { [fmt |-> "contention", variant |-> v, recs |-> rs, rate |-> 0, period |-> p, hz |-> hz] :
       v \in {"contentionz", "mutex", "contention"}, p \in {0, 1, 100}, hz \in {0, 1000, 2500},
@@ -76,31 +93,34 @@ BaseDocs(d) ==
 
 \* the trailing memory map: none, /proc/maps form or the brief form; two executable mappings
 \* exe = [8, 4096) and lib = [4096, 8192) (plus a non-executable one the parser must skip)
+Growth(doc) == doc.variant \in {"growthz", "growth", "fragmentationz"}
 MapForms == {"none", "procmaps", "brief"}
-Docs(d) == UNION { { [doc |-> b, map |-> m] : m \in (IF b.fmt = "threadz" THEN MapForms \ {"none"} ELSE MapForms) } : b \in BaseDocs(d) }
+Docs(d) == UNION { { [doc |-> b, map |-> m] : m \in (IF b.fmt = "threadz" THEN MapForms \ {"none"} ELSE IF b.fmt \in {"javaheap", "javacontention", "javacpu"} THEN {"none"} ELSE MapForms) } : b \in BaseDocs(d) }
 MapOf(form, a) == IF form = "none" THEN "fake" ELSE IF a >= 8 /\ a < 4096 THEN "exe" ELSE IF a >= 4096 /\ a < 8192 THEN "lib" ELSE "fake"
 PeriodExpected(doc) ==
   CASE doc.fmt = "gocount" -> 1
     [] doc.fmt = "threadz" -> 1
-    [] doc.fmt = "cpu" -> doc.period * 1000
-    [] doc.fmt = "contention" -> doc.period
-    [] doc.fmt = "heap" -> IF doc.variant = "heapprofile" THEN 1 ELSE IF doc.variant = "heap" THEN doc.rate \div 2 ELSE doc.rate
+    [] doc.fmt \in {"cpu", "javacpu"} -> doc.period * 1000
+    [] doc.fmt \in {"contention", "javacontention"} -> doc.period
+    [] doc.fmt = "javaheap" -> 0
+    [] doc.fmt = "heap" -> IF doc.variant = "heapprofile" \/ Growth(doc) THEN 1 ELSE IF doc.variant = "heap" THEN doc.rate \div 2 ELSE doc.rate
 
 StacksExpected(doc) ==
   CASE doc.fmt \in {"gocount", "heap", "contention"} -> [i \in DOMAIN doc.recs |-> AdjAll(doc.recs[i].stack)]
+    [] doc.fmt \in {"javaheap", "javacontention", "javacpu"} -> [i \in DOMAIN doc.recs |-> doc.recs[i].stack]
     [] doc.fmt = "threadz" -> LET real == SelectSeq(doc.recs, LAMBDA r : r.c = 1) IN [i \in DOMAIN real |-> DropDupLeaf(AdjCallers(real[i].stack))]
     [] doc.fmt = "cpu" -> LET adj == [i \in DOMAIN doc.recs |-> AdjCallers(doc.recs[i].stack)]
                               str == StripSignalFrame(adj)
                           IN [i \in DOMAIN str |-> DropDupLeaf(str[i])]
 \* values: either concrete integers or a named float rule
 HeapRate(doc) == IF doc.variant = "heapprofile" THEN 1 ELSE IF doc.variant = "heap" THEN doc.rate \div 2 ELSE doc.rate
-HasAlloc(doc) == LET r == doc.recs[1] IN (r.c2 # r.c /\ r.c2 # 0) \/ (r.s2 # r.s /\ r.s2 # 0)   \* the header repeats the first record
+HasAlloc(doc) == LET r == doc.recs[1] IN ~Growth(doc) /\ ((r.c2 # r.c /\ r.c2 # 0) \/ (r.s2 # r.s /\ r.s2 # 0))   \* the header repeats the first record
 ValuesExpected(doc) ==
   CASE doc.fmt = "gocount" -> [i \in DOMAIN doc.recs |-> [rule |-> "raw", v |-> <<doc.recs[i].c>>]]
     [] doc.fmt = "heap" ->
          [i \in DOMAIN doc.recs |->
             LET r == doc.recs[i] IN
-            [rule |-> IF doc.variant = "heapprofile" THEN "raw" ELSE "unsample", rate |-> HeapRate(doc),
+            [rule |-> IF doc.variant = "heapprofile" \/ Growth(doc) THEN "raw" ELSE "unsample", rate |-> HeapRate(doc),
              v |-> IF HasAlloc(doc) THEN <<r.c2, r.s2, r.c, r.s>> ELSE <<r.c, r.s>>,
              bytes |-> IF r.c # 0 THEN r.s \div r.c ELSE IF HasAlloc(doc) /\ r.c2 # 0 THEN r.s2 \div r.c2 ELSE 0]]
     [] doc.fmt = "contention" ->
@@ -110,7 +130,12 @@ ValuesExpected(doc) ==
              ord == SetToSortSeq(idx, <)
          IN [k \in DOMAIN ord |-> [rule |-> "raw",
                v |-> <<1 + IF Broken = "sameAsPreviousDropped" THEN 0 ELSE Cardinality({j \in DOMAIN doc.recs : j > ord[k] /\ doc.recs[j].c = 0 /\ \A m \in (ord[k] + 1)..j : doc.recs[m].c = 0})>>]]
-    [] doc.fmt = "cpu" -> [i \in DOMAIN doc.recs |-> [rule |-> "raw", v |-> <<doc.recs[i].c, doc.recs[i].c * doc.period * 1000>>]]
+    [] doc.fmt \in {"cpu", "javacpu"} -> [i \in DOMAIN doc.recs |-> [rule |-> "raw", v |-> <<doc.recs[i].c, doc.recs[i].c * doc.period * 1000>>]]
+    [] doc.fmt = "javaheap" -> [i \in DOMAIN doc.recs |-> [rule |-> "unsample", rate |-> doc.rate, v |-> <<doc.recs[i].c, doc.recs[i].s>>,
+                                                            bytes |-> doc.recs[i].s \div doc.recs[i].c]]
+    [] doc.fmt = "javacontention" ->
+         [i \in DOMAIN doc.recs |-> [rule |-> "raw", v |-> IF doc.period # 0 THEN <<doc.recs[i].c * doc.period, doc.recs[i].s * doc.period>>
+                                                            ELSE <<doc.recs[i].c, doc.recs[i].s>>]]
 
 VARIABLES pc, doc, map
 Init == pc = "gen" /\ doc = <<>> /\ map = ""
